@@ -382,11 +382,15 @@ def r2(chk, prog, m):
             ok = _must_precede(mc, rem[0], sets[0], _calls_under_param.removed)
         # the array callback: copy inserts like 'add' (bound = length); only move may use the callback that allows for the
         # element it has just removed
-        cbname = _resolve_fnptr(mc, sets[0].ops[3], _calls_under_param.removed) if len(sets) == 1 else None
+        cbname = _resolve_fnptr(mc, sets[0].ops[3], _calls_under_param.removed, {mc.params[3][1]: flag}) if len(sets) == 1 else None
         add_sets = [c for c in _calls_under_param(prog, ar, 3, 1) if c.callee == "json_pointer_set_with_array_cb"]
         add_cb = _callee_name(add_sets[0].ops[3]) if add_sets else None
         _calls_under_param(prog, mc, 3, flag)      # restore the pruning of this case
         want_cb = add_cb if flag == 0 else cbname
+        if ok and flag == 0 and cbname is None:
+            chk.undecided(rid, mc.name, "effects " + nm, sets[0].locstr(),
+                          "the array callback handed to the set is not resolved to a function (computed pointer)")
+            continue
         if ok and flag == 0 and cbname != want_cb:
             chk.refuted(rid, mc.name, "effects " + nm, sets[0].locstr(),
                         "%s sets array elements through %s; RFC 6902 defines %s as 'add' of the copied value, whose array callback is %s (a "
@@ -437,7 +441,7 @@ def _calls_under_param(prog, fn, pidx, value):
     return calls
 
 
-def _resolve_fnptr(fn, v, removed):
+def _resolve_fnptr(fn, v, removed, env=None):
     """name of the function a function-pointer operand denotes on the pruned CFG (through phis), or None"""
     from .. import lin as _lin
     reach = _lin._reach(fn, removed)
@@ -453,6 +457,22 @@ def _resolve_fnptr(fn, v, removed):
         if d.op == "bitcast":
             v = d.ops[0]
             continue
+        if d.op == "load" and env is not None:
+            # an entry of a constant table of callbacks, indexed by an expression of the (known) parameter
+            a = d.ops[0]
+            ad = fn.defs.get(a.v) if a.kind == "reg" else None
+            g, idx = None, None
+            if ad is not None and ad.op == "getelementptr" and strip_casts(ad.ops[0]).kind == "global" and len(ad.ops) == 3:
+                from ..heapuse import _ev
+                g = fn.module.globals.get(strip_casts(ad.ops[0]).v)
+                idx = _ev(fn, ad.ops[2], env)
+            elif a.kind == "cexpr" and a.v == "getelementptr" and a.args and strip_casts(a.args[0]).kind == "global" and \
+                    all(x.kind == "int" for x in a.args[1:]) and len(a.args) == 3:
+                g = fn.module.globals.get(strip_casts(a.args[0]).v)
+                idx = a.args[2].v
+            if g is not None and g.constant and g.init is not None and g.init.kind == "array" and idx is not None and 0 <= idx < len(g.init.args):
+                return _callee_name(g.init.args[idx])
+            return None
         if d.op == "phi":
             live = [val for val, lab in d.x["incoming"] if fn.blocks[lab] in reach and (lab, d.block.name) not in removed]
             names = {_callee_name(x) for x in live}
